@@ -159,4 +159,29 @@ theorem parts_doy (era yoe dm doe z : Int) (h : PartsOk era yoe dm doe z) :
     have q2 : (yoe + era * 400 + 1 - 1) % 400 = yoe := by omega
     simp only [q1, q2]; omega
 
+/-- The March-based year that ends with February of civil year `y + 1` has 365 days, or 366 when `y + 1`
+    is a leap year. -/
+theorem year_step (y : Int) :
+    ((y + 1) / 400) * 146097 + ((y + 1) % 400 * 365 + (y + 1) % 400 / 4 - (y + 1) % 400 / 100) =
+    (y / 400) * 146097 + (y % 400 * 365 + y % 400 / 4 - y % 400 / 100) + 365 +
+      (if isLeap (y + 1) then 1 else 0) := by
+  by_cases hl : isLeap (y + 1) = true
+  · simp only [hl, if_true]; rw [isLeap_iff] at hl
+    by_cases h4 : (y + 1) % 400 = 0
+    · have : (y + 1) / 400 = y / 400 + 1 := by omega
+      have : y % 400 = 399 := by omega
+      omega
+    · have : (y + 1) / 400 = y / 400 := by omega
+      have : (y + 1) % 400 = y % 400 + 1 := by omega
+      have : (y % 400 + 1) / 4 = y % 400 / 4 + 1 := by omega
+      have : (y % 400 + 1) / 100 = y % 400 / 100 := by omega
+      omega
+  · simp only [hl]; rw [isLeap_iff] at hl; simp only [Bool.false_eq_true, if_false]
+    have h4 : (y + 1) % 400 ≠ 0 := by omega
+    have : (y + 1) / 400 = y / 400 := by omega
+    have : (y + 1) % 400 = y % 400 + 1 := by omega
+    have : (y % 400 + 1) / 4 - (y % 400 + 1) / 100 = y % 400 / 4 - y % 400 / 100 := by omega
+    omega
+
+
 end Rscel.Time
